@@ -29,6 +29,9 @@ import (
 
 var operators = map[string]plugintypes.OperatorFactory{}
 
+// memoizeDo caches fn's result in the process-wide cache shared by every WAF. The key must
+// identify everything the result depends on and carry a prefix naming the kind of value
+// ("pm:", "regexp:", ...): keys from different call sites would otherwise collide.
 func memoizeDo(m plugintypes.Memoizer, key string, fn func() (any, error)) (any, error) {
 	if m != nil {
 		return m.Do(key, fn)
